@@ -5,7 +5,7 @@ use vstd::prelude::*;
 verus! {
 
 #[verifier::external_body]
-fn msg() -> String { String::new() }
+fn opaque_msg() -> String { String::new() }
 
 //@EXTRACT trigger_stats_struct
 
